@@ -263,3 +263,57 @@ def build_abort_sweep(chk: Check, n_contracts: int, n_k: int) -> None:
         "faults_fired": chk.stats["faults_fired"].get("exc_call", 0) - before,
         "wall_s": round(time.time() - t0, 1),
     }
+
+
+def address_reuse_sweep(chk: Check, n_pairs: int) -> None:
+    """Object lifetime: analyse A (nothing kept), let it be collected, analyse B.  CPython hands
+    B's objects the addresses A's objects had (the more alike the two contracts, the more exactly;
+    reuse has period two, hence A twice), so anything remembered under id() or in a structure that
+    outlives A is found again by B.  B = a near-twin of A, A itself, or another contract using the
+    same instructions."""
+    ctx = chk.ctx
+    rng = random.Random("reuse:%d" % chk.seed)
+    corpus_dir = os.path.join(os.path.dirname(os.path.dirname(os.path.abspath(__file__))), "corpus", "teal")
+
+    def has(c: str, word: str) -> bool:
+        return word in open(os.path.join(corpus_dir, c + ".teal"), encoding="utf-8").read()
+
+    small = [c for c in ctx.contracts if ctx.info[c]["lines"] <= 200]
+    gt = [c for c in small if has(c, "gtxns")]
+    pairs = []
+    for a in sorted(ctx.twins):
+        if a in small:
+            pairs.append((a, rng.choice(ctx.twins[a])))
+    rng.shuffle(pairs)
+    pairs = pairs[: n_pairs // 2]
+    while len(pairs) < n_pairs and len(gt) >= 2:
+        a, b = rng.sample(gt, 2)
+        pairs.append((a, b))
+    specs: List[Dict[str, Any]] = []
+    idx = 0
+    dets = list(ctx.detectors)
+    for a, b in pairs:
+        for reps, collect in ((1, True), (2, True), (2, False)):
+            ops: List[Dict[str, Any]] = []
+            for _ in range(reps):
+                ops.append({"op": "single", "c": a, "dets": dets, "runs": None, "s1": "id", "uid": len(ops)})
+                if collect:
+                    ops.append({"op": "gc", "uid": len(ops)})
+            ops.append({"op": "single", "c": b, "dets": dets, "runs": None, "s1": "id", "uid": len(ops)})
+            ops.append({"op": "gc", "uid": len(ops)})
+            ops.append({"op": "single", "c": a, "dets": dets, "runs": None, "s1": "id", "uid": len(ops)})
+            specs.append({"ops": ops, "hashseed": rng.choice(ctx.hashseeds), "index": 6000000 + idx})
+            idx += 1
+    t0 = time.time()
+    before = chk.stats["compared_ops"]
+    for i in range(0, len(specs), 128):
+        chk.run_batch(specs[i : i + 128], 1800.0)
+        if len(chk.violations) >= 5:
+            break
+    log(f"[c14:reuse] sessions={len(specs)} t={time.time()-chk.t0:.0f}s")
+    chk.stats["sweep_address_reuse"] = {
+        "pairs": len(pairs),
+        "sessions": len(specs),
+        "compared_ops": chk.stats["compared_ops"] - before,
+        "wall_s": round(time.time() - t0, 1),
+    }
